@@ -179,6 +179,7 @@ func Main(c *run.Ctx) {
 	c.Floor("quiescence checks passed", total/2, 0)
 	c.Floor("client went away mid-response", c.Pick(20, 1000), 0)
 	c.Floor("database error at row k", c.Pick(50, 2500), 0)
+	c.Floor("requests on a database whose first schema lookup fails", c.Pick(10, 500), 0)
 }
 
 var subqueryRe = regexp.MustCompile(`\[[^\]\[]*:[^\]\[]*\]`)
@@ -488,6 +489,20 @@ func Child(c *run.Ctx, name string) {
 		c.BeginCase(gi, openCase{Trigger: trig, WedgeKey: cs.wedgeKey(), Endpoint: cs.Gen.Endpoint, Case: cb})
 		if i < 3 {
 			c.Sample(map[string]any{"endpoint": cs.Gen.Endpoint, "request": clip(cs.Gen.Req.String(), 300), "db": cs.DB, "client": cs.Client})
+		}
+		if cs.DB.Mode == "err-schema" {
+			// a database the reader has not seen yet (its schema lookups are not cached) whose first version lookup or
+			// first SHOW TABLES fails; this request may fail, every later one must still be answered
+			f.newSession()
+			kind := []string{"show-tables", "settings"}[cs.DB.ErrAt%2]
+			var fired atomic.Bool
+			f.sess.SchemaFault = func(k string) error {
+				if k == kind && fired.CompareAndSwap(false, true) {
+					return fmt.Errorf("code: 209, message: scripted failure of the %s lookup (socket timeout)", k)
+				}
+				return nil
+			}
+			c.Floor("requests on a database whose first schema lookup fails", 0, 1)
 		}
 		f.plog.take()
 		base := census()
